@@ -9,6 +9,8 @@ same; the rules read branches.  So the loader undoes that step, exactly:
   setattr(x, "name", v)                 ->  x.name = v
   (lambda a, b: E)(x, y)                ->  E[a:=x, b:=y]                        (arguments that are plain names / attributes; also through a
                                                                                   local bound once to the lambda and only ever called)
+  attrgetter("a.b")(x) / itemgetter(k)(x) / methodcaller("m", y)(x) / partial(f, a)(b)   ->  x.a.b / x[k] / x.m(y) / f(a, b)   (also through
+                                            a local bound once to the helper and only ever called)
   {False: a, True: b}[<boolean test>]   ->  b if <test> else a
   (f if c else g)(a…)  as a statement   ->  if c: f(a…) else: g(a…)              (also  h = f if c else g; h(a…)  with h used once)
 
@@ -478,6 +480,8 @@ class _Fold(ast.NodeTransformer):
         if isinstance(n.func, ast.Name) and n.func.id == "getattr" and len(n.args) == 2 and not n.keywords \
                 and isinstance(n.args[1], ast.Constant) and isinstance(n.args[1].value, str) and n.args[1].value.isidentifier():
             return ast.copy_location(ast.Attribute(value=n.args[0], attr=n.args[1].value, ctx=ast.Load()), n)
+        if isinstance(n.func, ast.Call) and _as_lambda(n.func) is not None and not isinstance(n.func, ast.Lambda):
+            n.func = _as_lambda(n.func)
         if isinstance(n.func, ast.Lambda) and not n.keywords:
             a = n.func.args
             if not (a.vararg or a.kwarg or a.kwonlyargs or a.defaults or a.posonlyargs) and len(a.args) == len(n.args) and all(_simple(x) for x in n.args):
@@ -513,7 +517,10 @@ def unroll(tree, nodes=None):
                 choice = True
         elif isinstance(x, ast.Dict) and len(x.keys) == 2 and all(isinstance(k, ast.Constant) and isinstance(k.value, bool) for k in x.keys):
             fold = choice = True
-    if any(isinstance(x, ast.Assign) and isinstance(x.value, ast.Lambda) for x in nodes) and _apply_local_lambdas(tree):
+    if any(isinstance(x, ast.Assign) and (isinstance(x.value, ast.Lambda) or (isinstance(x.value, ast.Call) and (
+            (isinstance(x.value.func, ast.Name) and x.value.func.id in ("attrgetter", "itemgetter", "methodcaller", "partial")) or
+            (isinstance(x.value.func, ast.Attribute) and x.value.func.attr in ("attrgetter", "itemgetter", "methodcaller", "partial"))))) for x in nodes) \
+            and _apply_local_lambdas(tree):
         fold = True
     if not (has_for or fold or choice):
         return tree, 0
@@ -676,6 +683,38 @@ def _next_dispatch(tree, tables):
     return changed[0]
 
 
+def _as_lambda(v):
+    """a Lambda, or the lambda an operator helper with constant arguments stands for:
+       attrgetter("a.b") -> lambda o: o.a.b     itemgetter(k) -> lambda o: o[k]     methodcaller("m", x) -> lambda o: o.m(x)"""
+    if isinstance(v, ast.Lambda):
+        return v
+    if not (isinstance(v, ast.Call) and not v.keywords):
+        return None
+    fn = v.func.attr if isinstance(v.func, ast.Attribute) else (v.func.id if isinstance(v.func, ast.Name) else None)
+    o = ast.Name(id="o__op", ctx=ast.Load())
+    args = ast.arguments(posonlyargs=[], args=[ast.arg(arg="o__op")], kwonlyargs=[], kw_defaults=[], defaults=[])
+    if fn == "attrgetter" and len(v.args) == 1 and isinstance(v.args[0], ast.Constant) and isinstance(v.args[0].value, str) \
+            and all(p.isidentifier() for p in v.args[0].value.split(".")):
+        body = o
+        for part in v.args[0].value.split("."):
+            body = ast.Attribute(value=body, attr=part, ctx=ast.Load())
+        return ast.fix_missing_locations(ast.copy_location(ast.Lambda(args=args, body=body), v))
+    if fn == "itemgetter" and len(v.args) == 1 and _simple(v.args[0]):
+        return ast.fix_missing_locations(ast.copy_location(ast.Lambda(args=args, body=ast.Subscript(value=o, slice=v.args[0], ctx=ast.Load())), v))
+    if fn == "methodcaller" and v.args and isinstance(v.args[0], ast.Constant) and isinstance(v.args[0].value, str) and v.args[0].value.isidentifier() \
+            and all(_simple(a) for a in v.args[1:]):
+        call = ast.Call(func=ast.Attribute(value=o, attr=v.args[0].value, ctx=ast.Load()), args=list(v.args[1:]), keywords=[])
+        return ast.fix_missing_locations(ast.copy_location(ast.Lambda(args=args, body=call), v))
+    return None
+
+
+def _is_partial(v):
+    if not isinstance(v, ast.Call) or not v.args:
+        return False
+    fn = v.func.attr if isinstance(v.func, ast.Attribute) else (v.func.id if isinstance(v.func, ast.Name) else None)
+    return fn == "partial" and _simple(v.args[0]) and all(_simple(a) for a in v.args[1:]) and all(k.arg is not None and _simple(k.value) for k in v.keywords)
+
+
 def _apply_local_lambdas(tree):
     """f = lambda a: E   (a local bound once, only ever called)   …   f(x)   ->   E[a:=x]"""
     changed = False
@@ -688,11 +727,14 @@ def _apply_local_lambdas(tree):
             if isinstance(x, ast.Name) and isinstance(x.ctx, (ast.Store, ast.Del)):
                 stores[x.id] = stores.get(x.id, 0) + 1
         for st in ast.walk(fn):
-            if isinstance(st, ast.Assign) and len(st.targets) == 1 and isinstance(st.targets[0], ast.Name) and isinstance(st.value, ast.Lambda) \
-                    and stores.get(st.targets[0].id) == 1:
-                a = st.value.args
-                if not (a.vararg or a.kwarg or a.kwonlyargs or a.defaults or a.posonlyargs):
-                    lam[st.targets[0].id] = st.value
+            if isinstance(st, ast.Assign) and len(st.targets) == 1 and isinstance(st.targets[0], ast.Name) and stores.get(st.targets[0].id) == 1:
+                v = _as_lambda(st.value)
+                if v is not None:
+                    a = v.args
+                    if not (a.vararg or a.kwarg or a.kwonlyargs or a.defaults or a.posonlyargs):
+                        lam[st.targets[0].id] = v
+                elif _is_partial(st.value):
+                    lam[st.targets[0].id] = st.value  # functools.partial(f, a…): applied by appending the call's arguments
         if not lam:
             continue
         # only when every use of the name is a call of it
@@ -706,8 +748,15 @@ def _apply_local_lambdas(tree):
         class T(ast.NodeTransformer):
             def visit_Call(self, n):
                 self.generic_visit(n)
-                if isinstance(n.func, ast.Name) and n.func.id in lam and not n.keywords and len(n.args) == len(lam[n.func.id].args.args):
-                    n.func = ast.copy_location(copy_tree(lam[n.func.id]), n.func)
+                if isinstance(n.func, ast.Name) and n.func.id in lam:
+                    v = lam[n.func.id]
+                    if isinstance(v, ast.Lambda):
+                        if not n.keywords and len(n.args) == len(v.args.args):
+                            n.func = ast.copy_location(copy_tree(v), n.func)
+                    else:
+                        # partial(f, a, k=v)(b, …)  ->  f(a, b, …, k=v)
+                        return ast.copy_location(ast.Call(func=copy_tree(v.args[0]), args=[copy_tree(x) for x in v.args[1:]] + list(n.args),
+                                                          keywords=[copy_tree(k) for k in v.keywords] + list(n.keywords)), n)
                 return n
         T().visit(fn)
         changed = True
